@@ -98,6 +98,23 @@ type rwPtrField struct {
 	S   []func()
 	I   interface{}
 }
+// a data struct reached through a POINTER: not part of the remote definition, whatever it holds
+type rwInfo struct {
+	OnChange func()
+	Limit    int
+}
+type rwPtrToForeign struct {
+	Ping func(ctx ctxT) (string, error)
+	Info *rwInfo
+	Self *rwPtrToForeign
+}
+
+// valid function fields whose PARAMETERS are function types of any shape (C18 judges the field's own signature)
+type rwCallbackParams struct {
+	Subscribe func(ctx ctxT, onEvent func(ctx ctxT, msg string)) error
+	Watch     func(ctx ctxT, cb func() (int, int, error), done func(err error) bool) (int, error)
+	Ping      func(ctx ctxT) (string, error)
+}
 type rwVariadic struct {
 	V func(ctx ctxT, xs ...int) (int, error)
 }
@@ -190,11 +207,29 @@ func rwOracle(t reflect.Type, prefix string, settable bool, stubs *[]string) str
 				return rpc.ErrInvalidArgs.Error()
 			}
 			if settable && f.IsExported() {
-				*stubs = append(*stubs, path+"="+path)
+				if rwHasUncallableCallback(ft) {
+					*stubs = append(*stubs, path+"=<linked; not invoked: a callback parameter no closure can be made from>")
+				} else {
+					*stubs = append(*stubs, path+"="+path)
+				}
 			}
 		}
 	}
 	return ""
+}
+
+// rwHasUncallableCallback: the field takes a function-typed parameter from which no closure can be registered (no
+// error result). Such a field is a VALID part of a remote definition (C18 judges the field's own signature only);
+// invoking it ends the link, so the probe does not invoke it.
+func rwHasUncallableCallback(ft reflect.Type) bool {
+	for k := 1; k < ft.NumIn(); k++ {
+		if p := ft.In(k); p.Kind() == reflect.Func {
+			if p.NumOut() < 1 || p.NumOut() > 2 || !p.Out(p.NumOut()-1).Implements(rwErrorType) {
+				return true
+			}
+		}
+	}
+	return false
 }
 
 func rwProbeType[R any](name string) rwProbe {
@@ -272,6 +307,10 @@ func rwProbeType[R any](name string) rwProbe {
 						out.Nil = append(out.Nil, path)
 						continue
 					}
+					if rwHasUncallableCallback(f.Type) {
+						out.Stubs = append(out.Stubs, path+"=<linked; not invoked: a callback parameter no closure can be made from>")
+						continue
+					}
 					args := []reflect.Value{}
 					for k := 0; k < f.Type.NumIn(); k++ {
 						if k == 0 {
@@ -327,6 +366,8 @@ var rwZoo = map[string]func() rwProbe{
 	"UnexportedStruct":     func() rwProbe { return rwProbeType[rwUnexportedStruct]("UnexportedStruct") },
 	"EmbeddedExported":     func() rwProbe { return rwProbeType[rwEmbeddedExported]("EmbeddedExported") },
 	"PtrField":             func() rwProbe { return rwProbeType[rwPtrField]("PtrField") },
+	"PtrToForeign":         func() rwProbe { return rwProbeType[rwPtrToForeign]("PtrToForeign") },
+	"CallbackParams":       func() rwProbe { return rwProbeType[rwCallbackParams]("CallbackParams") },
 	"Variadic":             func() rwProbe { return rwProbeType[rwVariadic]("Variadic") },
 	"CustomCtx":            func() rwProbe { return rwProbeType[rwCustomCtx]("CustomCtx") },
 	"Empty":                func() rwProbe { return rwProbeType[rwEmpty]("Empty") },
@@ -343,6 +384,7 @@ var rwTypes = map[string]reflect.Type{
 	"InvalidDeep": reflect.TypeOf(rwInvalidDeep{}), "InvalidArgsThenReturn": reflect.TypeOf(rwInvalidArgsThenReturn{}),
 	"UnexportedFunc": reflect.TypeOf(rwUnexportedFunc{}), "UnexportedInvalid": reflect.TypeOf(rwUnexportedInvalid{}),
 	"UnexportedStruct": reflect.TypeOf(rwUnexportedStruct{}), "EmbeddedExported": reflect.TypeOf(rwEmbeddedExported{}),
+	"PtrToForeign": reflect.TypeOf(rwPtrToForeign{}), "CallbackParams": reflect.TypeOf(rwCallbackParams{}),
 	"PtrField": reflect.TypeOf(rwPtrField{}), "Variadic": reflect.TypeOf(rwVariadic{}), "CustomCtx": reflect.TypeOf(rwCustomCtx{}),
 	"Empty": reflect.TypeOf(rwEmpty{}), "OnlyOther": reflect.TypeOf(rwOnlyOther{}), "FuncNamedType": reflect.TypeOf(rwFuncNamedType{}),
 	"ZooRemote": reflect.TypeOf(Remote{}),
@@ -437,6 +479,9 @@ func runC18(rep *Report, tier string, seed int64) {
 			var parts []string
 			for _, s := range pr.Stubs {
 				pf := strings.SplitN(s, "=", 2)
+				if strings.HasPrefix(pf[1], "<linked; not invoked") {
+					pf[1] = pf[0] // (the model names every linked field; this one was linked but not invoked by the probe)
+				}
 				segs := []string{}
 				for _, sg := range strings.Split(pf[0], ".") {
 					segs = append(segs, hex.EncodeToString([]byte(sg)))
